@@ -3,7 +3,7 @@ CONSTANT N = 4
 CONSTANT CheckMDC = TRUE
 CONSTANT CheckPrefix = TRUE
 CONSTANT CheckKey = TRUE
-CONSTANT AcceptSED = FALSE
+CONSTANT AcceptSED = TRUE
 INVARIANT Integrity
 INVARIANT WrongKeyRaises
 INVARIANT UntouchedDecrypts
